@@ -6,7 +6,7 @@ proof          TelProofs.Props.C12 (stable models and temporal stable models dep
 correspondence L1/L5 of the rule fragment on permuted / duplicated programs
 search         metamorphic on the implementation: permutations, duplications, file splits, repeated sub-formulas
 """
-import random
+import subprocess, random
 import tl, gen, oracles, rules_check, par
 
 ID = "C12"
@@ -94,7 +94,10 @@ def _cli_chunk(args):
     cnt = 0
     tmp = tempfile.mkdtemp(prefix="c12_")
     def answers(paths):
-        rc, out, err = c10.run_cli(paths, None, ["0", "--imin=3", "--imax=3"])
+        try:
+            rc, out, err = c10.run_cli(paths, None, ["0", "--imin=3", "--imax=3"])
+        except subprocess.TimeoutExpired:
+            return ("timeout",)
         if "Traceback" in err or "Traceback" in out:
             return ("crash", err[-200:])
         res = {}
@@ -129,7 +132,7 @@ def _cli_chunk(args):
                 paths.append(p)
             a, b = answers([one]), answers(paths)
             cnt += 1
-            if a != b:
+            if a != b and ("timeout",) not in (a, b):
                 fails.append({"kind": "cli-layout", "text": tl.render_prog(rules) + "\n%%% versus the files\n" + "\n%%% next file\n".join(texts),
                               "input": [[tl.render_prog(rules)], texts], "one_file": str(a)[:300], "files": str(b)[:300]})
     finally:
